@@ -337,13 +337,16 @@ async fn handle_stream_append(
         Err(e) => return response_400(e.to_string()),
     };
 
-    let frame = store.append(
+    let frame = match store.append(
         Frame::builder(topic, context_id)
             .maybe_hash(hash)
             .maybe_meta(meta)
             .maybe_ttl(ttl)
             .build(),
-    )?;
+    ) {
+        Ok(frame) => frame,
+        Err(e) => return response_for_store_error(e),
+    };
 
     Ok(Response::builder()
         .status(StatusCode::OK)
@@ -537,7 +540,9 @@ async fn handle_import(store: &mut Store, body: hyper::body::Incoming) -> HTTPRe
         Err(e) => return response_400(format!("Invalid frame JSON: {}", e)),
     };
 
-    store.insert_frame(&frame)?;
+    if let Err(e) = store.insert_frame(&frame) {
+        return response_for_store_error(e);
+    }
 
     Ok(Response::builder()
         .status(StatusCode::OK)
@@ -550,6 +555,17 @@ fn is_cas_not_found(err: &cacache::Error) -> bool {
         cacache::Error::EntryNotFound(..) => true,
         cacache::Error::IoError(e, _) => e.kind() == std::io::ErrorKind::NotFound,
         _ => false,
+    }
+}
+
+/// The store rejects a frame it cannot accept (unknown context, xs.context outside the
+/// system context, NUL byte in the topic): that is the client's error. A failure of the
+/// storage engine itself stays a 500.
+fn response_for_store_error(err: crate::error::Error) -> HTTPResult {
+    if err.downcast_ref::<fjall::Error>().is_some() {
+        response_500(err.to_string())
+    } else {
+        response_400(err.to_string())
     }
 }
 
